@@ -54,10 +54,19 @@ func topLevel(dir string) map[string]bool {
 func genSigtrap(repo, out string, m map[string]string) error {
 	for _, f := range []string{"sigtrap.go", "sigtrap_posix.go"} {
 		name := "sigtrap:" + f
-		if err := rewriteFile(repo, out, m, name, f, []repl{
+		rs := []repl{
 			{old: "signal.Notify(", new: "verifNotify("},
 			{old: "os.Exit(", new: "verifExit("},
-		}); err != nil {
+		}
+		if f == "sigtrap.go" {
+			// the process-shutdown path runs the callbacks of all instances while it holds the
+			// instance-list mutex: let the simulator see whether it really does
+			if b, err := readFile(filepath.Join(repo, f)); err == nil && strings.Contains(string(b), "instancesMu.Lock()") && strings.Contains(string(b), "instancesMu.Unlock()") {
+				rs = append(rs, repl{old: "instancesMu.Lock()", new: "verifInstLock()"}, repl{old: "instancesMu.Unlock()", new: "verifInstUnlock()"})
+				applied["shutdownlock"] = true
+			}
+		}
+		if err := rewriteFile(repo, out, m, name, f, rs); err != nil {
 			return err
 		}
 		// keep the imports used
@@ -90,6 +99,7 @@ import (
 	"os/signal"
 	"sort"
 	"sync"
+	"sync/atomic"
 )
 
 // VerifNotify / VerifExit are set by the simulator; with nil they behave as the originals.
@@ -114,6 +124,21 @@ func verifExit(code int) {
 
 var _ sync.Mutex
 var _ = sort.Strings
+
+var verifInstHeld int32
+
+func verifInstLock() {
+	instancesMu.Lock()
+	atomic.AddInt32(&verifInstHeld, 1)
+}
+
+func verifInstUnlock() {
+	atomic.AddInt32(&verifInstHeld, -1)
+	instancesMu.Unlock()
+}
+
+// VerifShutdownLockHeld reports whether the process-shutdown path currently holds the instance-list mutex.
+func VerifShutdownLockHeld() bool { return atomic.LoadInt32(&verifInstHeld) > 0 }
 
 // VerifReset clears process-global residue between simulated runs.
 func VerifReset() {
